@@ -61,6 +61,7 @@ type Violation struct {
 type RunSpec struct {
 	Property string          `json:"property"`
 	Seed     uint64          `json:"seed"`
+	Index    int             `json:"index"`
 	Tier     string          `json:"tier"`
 	Cfg      json.RawMessage `json:"cfg,omitempty"`
 	Actions  []Action        `json:"actions,omitempty"`
@@ -71,6 +72,7 @@ type RunSpec struct {
 type RunResult struct {
 	Property    string          `json:"property"`
 	Seed        uint64          `json:"seed"`
+	Index       int             `json:"index"`
 	Cfg         json.RawMessage `json:"cfg"`
 	Violations  []Violation     `json:"violations,omitempty"`
 	Actions     []Action        `json:"actions,omitempty"`
@@ -94,6 +96,7 @@ type Job struct {
 	Property  string   `json:"property"`
 	Tier      string   `json:"tier"`
 	Seeds     []uint64 `json:"seeds,omitempty"`
+	First     int      `json:"first"`
 	Replay    *RunSpec `json:"replay,omitempty"`
 	Budget    float64  `json:"budget_s,omitempty"`
 	TraceFile string   `json:"trace_file,omitempty"`
@@ -458,6 +461,7 @@ func isKnown(ks []Known, prop, class string) *Known {
 // ---------------------------------------------------------------- check
 
 type found struct {
+	index int
 	res   *RunResult // nil for crashes
 	viol  Violation
 	crash bool
@@ -568,19 +572,20 @@ func cmdCheck(args []string) int {
 				for i := lo; i < hi; i++ {
 					seeds = append(seeds, runSeed(baseSeed, prop, i))
 				}
+				first := lo
 				for len(seeds) > 0 {
 					remain := time.Until(deadline).Seconds()
 					if remain < 1 {
 						remain = 1
 					}
-					out := runWorker(b.worker, Job{Property: prop, Tier: tier, Seeds: seeds, Budget: remain}, time.Duration(remain+120)*time.Second, m.Race)
+					out := runWorker(b.worker, Job{Property: prop, Tier: tier, Seeds: seeds, First: first, Budget: remain}, time.Duration(remain+120)*time.Second, m.Race)
 					mu.Lock()
 					for _, r := range out.results {
 						a.add(r)
 						for _, v := range r.Violations {
 							if !classesSeen[v.Class] {
 								classesSeen[v.Class] = true
-								founds = append(founds, &found{res: r, viol: v, seed: r.Seed, cfg: r.Cfg, acts: r.Actions})
+								founds = append(founds, &found{index: r.Index, res: r, viol: v, seed: r.Seed, cfg: r.Cfg, acts: r.Actions})
 							}
 						}
 					}
@@ -600,10 +605,16 @@ func cmdCheck(args []string) int {
 						break
 					}
 					class, _ := crashClass(out.stderr)
+					cidx := first
+					for i, s := range seeds {
+						if s == out.crashSeed {
+							cidx = first + i
+						}
+					}
 					mu.Lock()
 					if !classesSeen[class] {
 						classesSeen[class] = true
-						founds = append(founds, &found{crash: true, seed: out.crashSeed, viol: Violation{Invariant: prop + "/crash", Class: class, Detail: firstLines(out.stderr, 60)}})
+						founds = append(founds, &found{index: cidx, crash: true, seed: out.crashSeed, viol: Violation{Invariant: prop + "/crash", Class: class, Detail: firstLines(out.stderr, 60)}})
 					}
 					a.evals++
 					mu.Unlock()
@@ -618,6 +629,7 @@ func cmdCheck(args []string) int {
 						break
 					}
 					seeds = seeds[idx+1:]
+					first += idx + 1
 				}
 			}
 		}()
@@ -819,11 +831,11 @@ func readTrace(path string) (json.RawMessage, []Action) {
 func confirmAndMinimise(b *built, m *meta.Check, prop, tier string, f *found) (*Replay, bool) {
 	class := f.viol.Class
 	// 1. re-execute the seed alone (random scheduler) with incremental tracing
-	eo := evalSpec(b, m, RunSpec{Property: prop, Seed: f.seed, Tier: tier}, class, true)
+	eo := evalSpec(b, m, RunSpec{Property: prop, Seed: f.seed, Index: f.index, Tier: tier}, class, true)
 	if eo.viol == nil {
 		// crash classes can differ slightly between executions; accept any crash for a crash
 		if f.crash {
-			eo = evalSpec(b, m, RunSpec{Property: prop, Seed: f.seed, Tier: tier}, "", true)
+			eo = evalSpec(b, m, RunSpec{Property: prop, Seed: f.seed, Index: f.index, Tier: tier}, "", true)
 			if eo.viol != nil {
 				class = eo.viol.Class
 			}
@@ -838,7 +850,7 @@ func confirmAndMinimise(b *built, m *meta.Check, prop, tier string, f *found) (*
 		rp.Note = "configuration regenerated from the seed on replay"
 	}
 	// 2. the explicit action list must reproduce on its own
-	e2 := evalSpec(b, m, RunSpec{Property: prop, Seed: f.seed, Tier: tier, Cfg: cfg, Actions: acts, Scripted: true, Lenient: true}, class, false)
+	e2 := evalSpec(b, m, RunSpec{Property: prop, Seed: f.seed, Index: f.index, Tier: tier, Cfg: cfg, Actions: acts, Scripted: true, Lenient: true}, class, false)
 	if e2.viol == nil {
 		rp.Note += "; explicit action list did not reproduce, replay re-runs the seeded scheduler"
 		rp.Actions = nil
@@ -855,12 +867,12 @@ func confirmAndMinimise(b *built, m *meta.Check, prop, tier string, f *found) (*
 	}
 	deadline := time.Now().Add(budget)
 	test := func(cand []Action) bool {
-		e := evalSpec(b, m, RunSpec{Property: prop, Seed: f.seed, Tier: tier, Cfg: cfg, Actions: cand, Scripted: true, Lenient: true}, class, false)
+		e := evalSpec(b, m, RunSpec{Property: prop, Seed: f.seed, Index: f.index, Tier: tier, Cfg: cfg, Actions: cand, Scripted: true, Lenient: true}, class, false)
 		return e.viol != nil
 	}
 	min := ddmin(acts, test, deadline)
 	// final confirmation in a fresh process, strict about nothing but the class
-	e3 := evalSpec(b, m, RunSpec{Property: prop, Seed: f.seed, Tier: tier, Cfg: cfg, Actions: min, Scripted: true, Lenient: true}, class, false)
+	e3 := evalSpec(b, m, RunSpec{Property: prop, Seed: f.seed, Index: f.index, Tier: tier, Cfg: cfg, Actions: min, Scripted: true, Lenient: true}, class, false)
 	if e3.viol != nil {
 		rp.Actions = min
 		if rp.Actions == nil {
